@@ -9,14 +9,15 @@ LEVEL = 'exploration'
 ENGINE = 'grid'
 TECHNIQUE = ('bounded exhaustive evaluation of the frozen function tables of C12/C18-C23 (elementary, gamma, zeta, error/exponential integrals, Bessel/Airy, '
              'hypergeometric/orthogonal, elliptic/theta/Lambert W) on their exact-argument lattices extended by edge-of-validity points, each call under a '
-             'repeating-alarm watchdog; an overrun is re-run with a 3x budget before it is reported')
+             'repeating-alarm watchdog; an overrun is re-run with a 4x budget before it is reported')
 RULE = ('every table entry x every lattice argument x precisions {10, 53, one of 24/70/113/200/400 by seed, 1000 for the cheap families; thorough: 2000, 3000, 3333}; '
         'extra arguments where asymptotic expansions are used at the edge of their validity: |x| in [0.25,1.5]*(p+20), |z| ~ 0.11p and 0.2p, complex '
-        'arguments with imaginary part between 2^-p and 2^-0.8p, equal complex arguments of agm, tiny and huge values up to 10^6.  Budget per call: 15 s '
-        '(p<=400), 60 s (p=1000), 180 s above; typical cost is milliseconds, so an overrun confirmed by a 3x re-run is reported as non-termination. '
+        'arguments with imaginary part between 2^-p and 2^-0.8p, equal complex arguments of agm, tiny and huge values up to 10^6.  Budget per call: 5 s '
+        '(p<=400), 20 s (p=1000), 60 s above; typical cost is milliseconds, so an overrun confirmed by a 4x re-run is reported as non-termination '
+        '(after two confirmed overruns of one function in one argument class a task skips the remaining arguments of that class and counts them). '
         'Returning or raising any documented exception (ValueError, ZeroDivisionError, NoConvergence, NotImplementedError, OverflowError) is a pass. '
-        'non-trivial = every completed call; bounded statement: no hang on this lattice')
-ASSUMPTIONS = ['a call that exceeds 3x the budget (>= 45 s where normal calls take milliseconds) does not terminate in reasonable time; wall-clock based']
+        'Excluded (counted): fac2 at complex arguments with |im| > 64, whose value (pi/2)^(cosh(pi*im)/4) needs multi-million-bit argument reduction. non-trivial = every completed call; bounded statement: no hang on this lattice')
+ASSUMPTIONS = ['a call that exceeds 4x the budget (>= 20 s where normal calls take milliseconds) does not terminate in reasonable time; wall-clock based']
 BOUNDS = {'quick': '4 precisions', 'thorough': '7 precisions to 3333 bits'}
 
 ELEM = ['exp', 'log', 'sqrt', 'cbrt', 'sin', 'cos', 'tan', 'cot', 'sinh', 'cosh', 'tanh', 'asin', 'acos', 'atan', 'asinh', 'acosh', 'atanh', 'sinpi', 'cospi', 'expm1', 'log1p', 'sinc', 'lambertw', 'agm']
@@ -68,12 +69,22 @@ def tasks(tier, seed):
 
 
 def budget_for(p):
-    return 15 if p <= 400 else (60 if p <= 1000 else 180)
+    return 5 if p <= 400 else (20 if p <= 1000 else 60)
 
 
-def guarded(acc, mp, fname, args, p, kw=None):
+CONFIRM = 4          # an overrun is re-run with CONFIRM x the budget
+
+
+def guarded(acc, mp, fname, args, p, kw=None, hung=None):
     b = budget_for(p)
     t0 = time.time()
+    cls = (fname, grid.classify(args, p))
+    if value_is_doubly_exponential(fname, args):
+        acc.count('excluded_doubly_exponential_value')
+        return
+    if hung is not None and hung.get(cls, 0) >= 2:
+        acc.count('skipped_after_two_hangs_in_class')          # the class is already reported twice by this task
+        return
     try:
         grid.evaluate(mp, fname, args, p, kw, b)
         acc.evals += 1; acc.nontrivial += 1
@@ -87,19 +98,31 @@ def guarded(acc, mp, fname, args, p, kw=None):
         mp.prec = 53
     # confirm with a 3x budget
     try:
-        grid.evaluate(mp, fname, args, p, kw, 3 * b)
+        grid.evaluate(mp, fname, args, p, kw, CONFIRM * b)
         acc.evals += 1; acc.nontrivial += 1
         acc.count('slow_but_terminating')
         acc.extra.setdefault('_slow', []).append([fname, grid.show(args), p, round(time.time() - t0, 1)])
         return
     except core.TimeoutHit:
         acc.evals += 1
-        acc.violation([PROP, fname, list(args), p, kw or {}], '%s%s at prec %d did not return within %d s (3x the budget; typical cost is milliseconds)' % (fname, grid.show(args), p, 3 * b),
-                      fn=fname, kind='no-return', args=grid.show(args), prec_class='low' if p <= 400 else 'high')
+        if hung is not None:
+            hung[cls] = hung.get(cls, 0) + 1
+        acc.violation([PROP, fname, list(args), p, kw or {}], '%s%s at prec %d did not return within %d s (%dx the budget; typical cost is milliseconds)' % (fname, grid.show(args), p, CONFIRM * b, CONFIRM),
+                      fn=fname, kind='no-return', arg=cls[1][0], mag=cls[1][1], args=grid.show(args), prec_class='low' if p <= 400 else 'high')
     except Exception:
         acc.evals += 1; acc.count('raised')
     finally:
         mp.prec = 53
+
+
+# arguments whose VALUE is doubly exponential, so that a legitimate evaluation needs multi-million-bit argument reduction (not an unbounded loop):
+# fac2(x) contains (pi/2)**((cospi(x)-1)/4), and |cospi(x)| ~ exp(pi*|im x|)
+def value_is_doubly_exponential(fname, args):
+    if fname == 'fac2':
+        for a in args:
+            if isinstance(a, tuple) and len(a) == 2 and a[1][1] and a[1][2] + a[1][3] > 6:
+                return True
+    return False
 
 
 def t_tab(task):
@@ -107,16 +130,17 @@ def t_tab(task):
     from mpmath import mp
     acc = Acc()
     prop, ent = tables()[i]
+    hung = {}
     try:
         arglist = ent['args'](min(p, 1000))
         if p > 1000:
             arglist = arglist[::3]
         for args in arglist:
-            guarded(acc, mp, ent['fn'], args, p, ent.get('kw'))
+            guarded(acc, mp, ent['fn'], args, p, ent.get('kw'), hung)
         # one-argument functions also get the shared edge-of-validity arguments
         if arglist and len(arglist[0]) == 1 and not isinstance(arglist[0][0], (int, list, str)):
             for a in extra_args(p):
-                guarded(acc, mp, ent['fn'], (a,), p, ent.get('kw'))
+                guarded(acc, mp, ent['fn'], (a,), p, ent.get('kw'), hung)
         if arglist:
             acc.sample([ent['fn'], grid.show(arglist[0]), p, 'budget %ds' % budget_for(p)])
     finally:
@@ -128,22 +152,23 @@ def t_elem(task):
     _, name, p = task
     from mpmath import mp
     acc = Acc()
+    hung = {}
     try:
         args = [t for t in grid.args_real(min(p, 1000), 'R', 22)] + grid.args_complex(min(p, 1000), 'C', 12) + extra_args(p)
         if name == 'agm':
             zs = [(R(-1), R(1)), (R(1), R(1)), R(-1), R(2), (R(-3), R(1, 4)), R(0), (R(0), R(1))]
             for a in zs:
                 for b in zs:
-                    guarded(acc, mp, 'agm', (a, b), p)
+                    guarded(acc, mp, 'agm', (a, b), p, None, hung)
         elif name == 'lambertw':
             for a in args[::3]:
                 for k in (0, -1, 2):
-                    guarded(acc, mp, 'lambertw', (a, k), p)
+                    guarded(acc, mp, 'lambertw', (a, k), p, None, hung)
         else:
             for a in args:
                 if name in ('exp', 'sinh', 'cosh', 'expm1') and not isinstance(a[0], tuple) and a[2] + a[3] > 40:
                     continue
-                guarded(acc, mp, name, (a,), p)
+                guarded(acc, mp, name, (a,), p, None, hung)
         acc.sample([name, grid.show((args[5],)), p])
     finally:
         mp.prec = 53
